@@ -20,3 +20,9 @@ package kv
 //@ # WithTx is executed in place at its call sites (the closure runs on the opened transaction);
 //@ # OpenTx/Commit/Close are engine calls outside the subset: their results are unconstrained
 //@ inline func WithTx(ctx context.Context, db DB, f func(tx Tx) error) (err error)
+
+//@ # ---- order of persists (C15 "never reused" across a restart): the value is advanced and written
+//@ # to storage in one step, so the writes of concurrent Adds reach storage in the order of their
+//@ # values. Stated as a lock discipline: the storage handle is only used with the counter's mutex held.
+//@ guarded_by AtomicInt64Counter.db mu
+//@ unshared OpenCounter the counter is built before it is published
